@@ -5,7 +5,8 @@ import St4sd.Model.Restart
 Request: `{"op":"exec","old":bool,"fin":bool,"cfg":{maxRestarts:int|null,hookFileNamed,hookOn:[names],simulator,
 repeating,hookModule:"fallback"|"scripted"|"broken"},"inps":[{reason,hook,control,runFails,stable,
 launch:"task"|"submitError"|"otherError"|"none"}]}`
-Answer: `{"events":[{code,restarts,resub,runs,shutdown}]}` (one per input, chronological). -/
+Answer: `{"events":[{code,restarts,resub,runs,shutdown}], "asked":[bool]}` (one per input, chronological;
+`asked` = the hook module's `Restart` is called at that step). -/
 open Lean Proto St4sd.Restart
 
 def parseReason (s : String) : Except String Reason :=
@@ -67,6 +68,13 @@ def evJson (e : Ev) : Json :=
   jobj [("code", jstr e.code.name), ("restarts", jnat e.st.restarts), ("resub", jnat e.st.resub),
         ("runs", jnat e.st.runs), ("shutdown", jbool e.st.shutdown)]
 
+/-- for every input: is the scripted hook asked at that step (state before the step = state of the previous event) -/
+def askedLog (fin : Bool) (old : Bool) (cfg : Cfg) : St → List Inp → List Bool
+  | _, [] => []
+  | s, i :: is =>
+    let s' := if old then (stepOld fin cfg s i).1 else (step fin cfg s i).1
+    stepAsksHook cfg s i :: askedLog fin old cfg s' is
+
 def handle (j : Json) : Except String Json := do
   let op ← getStr j "op"
   match op with
@@ -76,7 +84,8 @@ def handle (j : Json) : Except String Json := do
     let cfg ← parseCfg (← j.getObjVal? "cfg")
     let inps ← (← getArr j "inps").mapM parseInp
     let evs := if old then execOld fin cfg St.init inps else exec fin cfg St.init inps
-    return jobj [("events", jarr (evs.map evJson)), ("effMax", jint (effMax cfg)),
+    return jobj [("events", jarr (evs.map evJson)), ("asked", jarr ((askedLog fin old cfg St.init inps).map jbool)),
+                 ("effMax", jint (effMax cfg)),
                  ("schemaValid", jbool (schemaValid cfg))]
   | _ => throw s!"unknown op {op}"
 
